@@ -148,6 +148,17 @@ func (e *Engine) replay(o *Obl, prop string) ReplayResult {
 			}
 		case *types.Pointer:
 			es := types.TypeString(u.Elem(), qual)
+			if lit, ok := structLiteral(p.Name(), u, model, qual, 0); ok && es != "dict.Parser" && es != "Parser" {
+				val = lit
+				inputs[p.Name()] = val
+				decl = append(decl, fmt.Sprintf("\t%s := %s", name, val))
+				if i == 0 && fn.Signature.Recv() != nil {
+					recv = name
+				} else {
+					args = append(args, name)
+				}
+				continue
+			}
 			switch es {
 			case "dict.Parser", "Parser":
 				imports["github.com/fiorix/go-diameter/v4/diam/dict"] = true
@@ -193,6 +204,7 @@ func (e *Engine) replay(o *Obl, prop string) ReplayResult {
 	for i := range params {
 		oracle = strings.ReplaceAll(oracle, fmt.Sprintf("ARG%d", i), fmt.Sprintf("a%d", i))
 	}
+	oracle = strings.ReplaceAll(oracle, "RECV", "a0")
 	var b strings.Builder
 	fmt.Fprintf(&b, "package %s\n\nimport (\n", pkgName)
 	for imp := range imports {
@@ -257,4 +269,57 @@ func (e *Engine) replay(o *Obl, prop string) ReplayResult {
 		}
 	}
 	return rr
+}
+
+
+// structLiteral builds &T{...} from the model's values for the scalar fields (two levels of pointers).
+func structLiteral(name string, pt *types.Pointer, model map[string]string, qual types.Qualifier, depth int) (string, bool) {
+	st, ok := pt.Elem().Underlying().(*types.Struct)
+	if !ok || depth > 1 {
+		return "", false
+	}
+	if ref, ok := smtValToInt(model[name+"."]); ok && ref == 0 && depth == 0 {
+		return "nil", true
+	}
+	var fs []string
+	seen := false
+	for i := 0; i < st.NumFields(); i++ {
+		f := st.Field(i)
+		key := name + "." + f.Name()
+		switch u := f.Type().Underlying().(type) {
+		case *types.Basic:
+			mv, ok := model[key]
+			if !ok {
+				continue
+			}
+			seen = true
+			n, _ := smtValToInt(mv)
+			ts := types.TypeString(f.Type(), qual)
+			switch {
+			case u.Info()&types.IsBoolean != 0:
+				fs = append(fs, fmt.Sprintf("%s: %v", f.Name(), n != 0))
+			case u.Info()&types.IsUnsigned != 0:
+				fs = append(fs, fmt.Sprintf("%s: %s(%d)", f.Name(), ts, uint64(n)&mask(intWidth(u))))
+			default:
+				w := intWidth(u)
+				fs = append(fs, fmt.Sprintf("%s: %s(%d)", f.Name(), ts, int64(uint64(n)<<uint(64-w))>>uint(64-w)))
+			}
+		case *types.Pointer:
+			mv, ok := model[key]
+			if !ok {
+				continue
+			}
+			if n, _ := smtValToInt(mv); n == 0 {
+				continue
+			}
+			if lit, ok := structLiteral(key, u, model, qual, depth+1); ok {
+				fs = append(fs, fmt.Sprintf("%s: %s", f.Name(), lit))
+				seen = true
+			}
+		}
+	}
+	if !seen && depth == 0 {
+		return "", false
+	}
+	return "&" + types.TypeString(pt.Elem(), qual) + "{" + strings.Join(fs, ", ") + "}", true
 }
